@@ -219,6 +219,17 @@ def gen_ro_sep(rng, cfg):
             ([s_c] if st_after_cons_only else [last]) if own else [last, s_obj], role='st')
         # a constraint relying on the default set is only meaningful once the objective (and its set) exists
 
+    if rng.random() < cfg.get('p_tied_rules', 0.25):
+        # a decision rule outside the objective pinned by a robust EQUALITY e(z) == a z0 + b; the equality gets its own set,
+        # before or after it was handed to st() (the model may have no default set at all)
+        s_e1 = add({'op': 'ldr', 'id': 'e1_', 'm': 'm', 'shape': []}, [s_m])
+        s_ea = add({'op': 'adapt', 'tgt': ['v', 'e1_'], 'to': ['i', ['v', 'z'], [0, 1]]}, [s_e1, s_z['z']], role='adapt')
+        blocks_t = gen.gen_set(rng, zs, fams)
+        s_tq = add({'op': 'cons', 'id': 'tq', 'e': ['==', ['v', 'e1_'], ['+', ['*', ['c', gen.nz2(rng)], ['i', ['v', 'z'], 0]], ['c', 1.0]]]},
+                   [s_e1, s_ea] + list(s_z.values()), role='tie')
+        s_tf = add({'op': 'forall', 'id': 'tq', 'set': ref.set_constraints(blocks_t, zs), 'blocks': blocks_t},
+                   [s_tq] + list(s_z.values()), role='set', anchor=s_tq)
+        add({'op': 'st', 'm': 'm', 'ids': ['tq']}, [s_tq] if rng.random() < 0.5 else [s_tf], role='st')
     # late extra variable (not in the objective): bounded, optionally integer
     if rng.random() < 0.5:
         vt = 'C' if cone == 'exp' else rng.choice(['C', 'I', 'I', 'B'])
